@@ -11,6 +11,7 @@ INVARIANT EntriesBounded
 INVARIANT ViewsConsistent
 PROPERTY OnlyCaller
 PROPERTY ForgedRejected
+PROPERTY OriginIsNoAuthority
 PROPERTY RouteIndependent
 PROPERTY LogsMatchEvents
 PROPERTY FailedChangesNothing
